@@ -1,11 +1,15 @@
 import Cfdm.Lemmas.Ugrid
 import Cfdm.Lemmas.UgridNormalise
+import Cfdm.Lemmas.UgridNormMeaning
+import Cfdm.Lemmas.UgridRead
 /-
 C15 — UGRID meshes are mapped to topology constructs correctly.  Property theorems only.
 
-The point-cell functions model the code after the proposed patches
-(fixes/C15-*.patch); the unpatched behaviour is `pointTopologyOld` and the four
-`C15_old_code_counterexample_*` theorems show where it breaks the property.
+The point-cell functions model the code after the fix commits 00b4eb1, 9a9f570, 2c54535 (applied
+to /repo) and after the proposed patches fixes/C15-point-edges-padded.patch,
+fixes/C15-edge-face-cells-start-index.patch, fixes/C15-cell-connectivity-start-index-kept.patch,
+fixes/C15-location-index-set.patch; the unpatched behaviour is kept as `…Old` and the
+`…counterexample…` theorems show where it breaks the property.
 -/
 namespace Cfdm.Props.C15
 open Cfdm.Ugrid
@@ -190,33 +194,40 @@ theorem C15_old_code_counterexample_padded :
 
 /-! ### Edge and face cells -/
 
-/- Full statement (what the property says):
-     ∀ si ≤ 1, cellTopology cd stored = specCells si (selectData cd stored)
-   It does not hold for the code as it is: the reader pops `start_index` and hands
-   over the stored values (`C15_cells_start_index_counterexample`); known finding
-   `edge-face-cells-start-index-1-not-shifted`.  Proved with the excluding
-   hypothesis `si = 0`: -/
-/-- Edge/face cells: each row lists the cell's nodes with the padding masked —
-zero-based **when the file is zero-based**. -/
-theorem C15_cells_zero_based_partial (cd si : Nat) (stored : Mat) (hsi : si = 0) :
-    cellTopology cd stored = specCells si (selectData cd stored) := by
-  subst hsi
-  simp only [cellTopology, specCells, specRow, Nat.sub_zero]
-  conv => lhs; rw [← List.map_id (selectData cd stored)]
-  apply List.map_congr_left
-  intro r _
-  conv => lhs; rw [id, ← List.map_id r]
-  apply List.map_congr_left
-  intro o _
-  cases o <;> rfl
+/-- Edge/face cells: each row lists the cell's nodes, **zero-based whatever `start_index` the file
+used**, with the padding masked (the code after `fixes/C15-edge-face-cells-start-index.patch`). -/
+theorem C15_cells_zero_based (cd si : Nat) (stored : Mat) :
+    cellTopology si cd stored = specCells si (selectData cd stored) := by
+  unfold cellTopology specCells specRow
+  by_cases hsi : si = 0
+  · subst hsi
+    simp only [ne_eq, not_true_eq_false, if_false, Nat.sub_zero]
+    conv => lhs; rw [← List.map_id (selectData cd stored)]
+    apply List.map_congr_left
+    intro r _
+    conv => lhs; rw [id, ← List.map_id r]
+    apply List.map_congr_left
+    intro o _
+    cases o <;> rfl
+  · simp only [ne_eq, hsi, not_false_eq_true, if_true, mapVals]
 
-example : cellTopology 1 [[some 0, some 1], [some 1, some 3], [some 2, some 4], [none, some 2]] =
+example : cellTopology 1 1 [[some 1, some 2], [some 2, some 4], [some 3, some 5], [none, some 3]] =
     [[some 0, some 1, some 2, none], [some 1, some 3, some 4, some 2]] := by decide
 
-/-- With `start_index = 1` the edge/face domain topology keeps the one-based
-stored values. -/
+/-- The code as it is (`cellTopologyOld`): with `start_index = 1` the edge/face domain topology
+keeps the one-based stored values (known finding `edge-face-cells-start-index-1-not-shifted`). -/
 theorem C15_cells_start_index_counterexample :
-    cellTopology 0 [[some 1, some 2, some 3]] ≠ specCells 1 (selectData 0 [[some 1, some 2, some 3]]) := by
+    cellTopologyOld 0 [[some 1, some 2, some 3]] ≠ specCells 1 (selectData 0 [[some 1, some 2, some 3]]) ∧
+    cellTopology 1 0 [[some 1, some 2, some 3]] = specCells 1 (selectData 0 [[some 1, some 2, some 3]]) := by
+  decide
+
+/-- Point cells from an edge array with a masked element: the code before
+`fixes/C15-point-edges-padded.patch` raises `TypeError` (modelled as `none`); the patched code
+ignores the missing node, as it does for faces. -/
+theorem C15_old_code_counterexample_padded_edges :
+    pointTopologyEdgesOld 0 (some 3) [[some 0, some 1], [some 1, some 2], [some 2, none]] = none ∧
+    pointTopology .edges 0 (some 3) [[some 0, some 1], [some 1, some 2], [some 2, none]] =
+      [[some 0, some 1, none], [some 1, some 0, some 2], [some 2, some 1, none]] := by
   decide
 
 /-- Stored (node, cell) arrays are read as (cell, node): entry `(cell i, node j)`
@@ -309,5 +320,480 @@ theorem C15_normalise_nodes_idem (oneBased : Bool) (m : Mat) :
 
 example : normaliseNodes false [[some 1, some 4, some 5, some 2], [some 4, some 10, some 1, none]] =
     [[some 0, some 2, some 3, some 1], [some 2, some 4, some 0, none]] := by decide
+
+/-- **What `normalise` means** (point cells and cell connectivity, `_normalise_cell_ids` as coded:
+both branches, the negative-id shift, the sequential `copyto` loop, the masking of redundant ids and
+the conditional sort).  Row `k` of the result starts with `k + start_index`, and its unmasked values
+are exactly the new identifiers (`relabelOf` = row number + `start_index`) of those values of row
+`k` of the input that identify a cell of the array; identifiers of cells that are not in the array
+are dropped.  This is the statement that makes `normalise` after a subspace meaningful: the
+neighbours that were cut away disappear, the others are renumbered by their new position. -/
+theorem C15_normalise_meaning (oneBased : Bool) (m : IMat) (h : WFIds m) (k : Nat) (hk : k < m.length) :
+    (row (normaliseCellIds oneBased m) k).head? = some (some (baseOf oneBased + (k : Int))) ∧
+    ∀ w, w ∈ rowVals (normaliseCellIds oneBased m) k ↔
+      ∃ v ∈ rowVals m k, relabelOf (firstCol m) (baseOf oneBased) v = some w := by
+  refine ⟨?_, fun w => normaliseCellIds_rows oneBased m h k w⟩
+  have nf := NF_normaliseCellIds oneBased m h
+  -- the first column of the result has one (unmasked) entry per row, equal to base + k
+  have hlen : (normaliseCellIds oneBased m).length = m.length := nf.len
+  have hfc : firstCol (normaliseCellIds oneBased m) = arange (baseOf oneBased) m.length := nf.ids
+  have hl : (firstCol (normaliseCellIds oneBased m)).length = (normaliseCellIds oneBased m).length := by
+    rw [hfc, length_arange, hlen]
+  have hk' : k < (normaliseCellIds oneBased m).length := by omega
+  have hrow : (normaliseCellIds oneBased m)[k]? = some (normaliseCellIds oneBased m)[k] :=
+    List.getElem?_eq_getElem hk'
+  have hh := Cfdm.UgridRead.head?_of_firstCol _ hl k _ hrow
+  have hget : (arange (baseOf oneBased) m.length)[k]? = some (baseOf oneBased + (k : Int)) := by
+    simp [arange, List.getElem?_map, List.getElem?_range hk]
+  rw [hfc, hget] at hh
+  simp only [row, List.getD_eq_getElem?_getD, hrow, Option.getD_some]
+  cases hd : (normaliseCellIds oneBased m)[k].head? with
+  | none => rw [hd] at hh; simp at hh
+  | some o =>
+    rw [hd] at hh
+    simp only [Option.join_some] at hh
+    rw [hh]
+
+example : normaliseCellIds false [[some 7, some 3, some 9], [some 3, some 7, none], [some 5, some 9, some 3]] =
+    [[some 0, some 1, none], [some 1, some 0, none], [some 2, some 1, none]] := by decide
+
+example : relabelOf [7, 3, 5] 0 3 = some 1 ∧ relabelOf [7, 3, 5] 0 9 = none := by decide
+
+open Cfdm.UgridRead
+
+/-- **`normalise` does not depend on how the cells are labelled.**  Renaming the cell identifiers
+of a point-cell domain topology / cell connectivity array by any injective map (first column and
+references alike) does not change which cells each row of the normalised array lists: two arrays
+that describe the same connectivity under different labels normalise to the same rows (as sets of
+values; the first column is `0..n-1` in both by `C15_normalise_normal_form`). -/
+theorem C15_normalise_label_invariant (ob : Bool) (m : IMat) (h : WFIds m) (σ : Int → Int)
+    (hσ : ∀ a b, σ a = σ b → a = b) (k : Nat) (w : Int) :
+    w ∈ rowVals (normaliseCellIds ob (mapVals σ m)) k ↔ w ∈ rowVals (normaliseCellIds ob m) k := by
+  have hwf : WFIds (mapVals σ m) := by
+    refine ⟨by rw [length_mapVals]; exact h.nonempty, ?_, ?_⟩
+    · rw [firstCol_mapVals, List.length_map, length_mapVals]; exact h.heads
+    · rw [firstCol_mapVals]
+      exact List.Pairwise.map σ (fun a b (hab : a ≠ b) e => hab (hσ a b e)) h.nodup
+  rw [normaliseCellIds_rows ob _ hwf k w, normaliseCellIds_rows ob m h k w, rowVals_mapVals,
+    firstCol_mapVals]
+  constructor
+  · rintro ⟨v', hv', hrel⟩
+    obtain ⟨v, hv, rfl⟩ := List.mem_map.mp hv'
+    refine ⟨v, hv, ?_⟩
+    unfold relabelOf at hrel ⊢
+    rwa [idxOf_map_inj _ σ hσ, List.length_map] at hrel
+  · rintro ⟨v, hv, hrel⟩
+    refine ⟨σ v, List.mem_map.mpr ⟨v, hv, rfl⟩, ?_⟩
+    unfold relabelOf at hrel ⊢
+    rwa [idxOf_map_inj _ σ hσ, List.length_map]
+
+example : normaliseCellIds false (mapVals (fun v => 100 - 3 * v) [[some 4, some 1, some 10], [some 1, some 4, none]]) =
+    normaliseCellIds false [[some 4, some 1, some 10], [some 1, some 4, none]] := by decide
+
+/-- **`normalise` after a subspace.**  Let `m` be a normalised (zero-based) point-cell or
+cell-connectivity array — row `i` starts with `i` — and `pos` a non-empty list of distinct in-range
+positions (what `Field.__getitem__` or a location index set selects).  Then the values of row `k`
+of `normalise(m[pos])` are exactly `j + start_index` for those `j` whose cell `pos[j]` is listed in
+row `pos[k]` of `m`: the neighbours that the subspace cut away disappear and the others are
+renumbered by their new position. -/
+theorem C15_subspace_normalise (ob : Bool) (m : IMat) (pos : List Nat)
+    (hids : firstCol m = arange 0 m.length) (hne : pos ≠ []) (hnd : pos.Nodup)
+    (hpos : ∀ i ∈ pos, i < m.length) (k : Nat) (hk : k < pos.length) (w : Int) :
+    w ∈ rowVals (normaliseCellIds ob (takeRows pos m)) k ↔
+      ∃ j, ∃ (hj : j < pos.length), ((pos[j] : Nat) : Int) ∈ rowVals m pos[k] ∧ w = baseOf ob + (j : Int) := by
+  have hfc := firstCol_takeRows m pos hids hpos
+  have hlen : (takeRows pos m).length = pos.length := takeRows_length pos m hpos
+  have hwf : WFIds (takeRows pos m) := by
+    refine ⟨?_, ?_, ?_⟩
+    · rw [hlen]; cases pos with
+      | nil => exact absurd rfl hne
+      | cons _ _ => simp
+    · rw [hfc, List.length_map, hlen]
+    · rw [hfc]
+      exact List.Pairwise.map _ (fun a b (hab : a ≠ b) => by simp only [ne_eq]; omega) hnd
+  rw [normaliseCellIds_rows ob _ hwf k w]
+  have hrow : rowVals (takeRows pos m) k = rowVals m pos[k] := by
+    have hpk : pos[k] < m.length := hpos _ (List.getElem_mem hk)
+    simp only [rowVals, List.getD_eq_getElem?_getD, takeRows_getElem? pos m hpos k,
+      List.getElem?_eq_getElem hk, Option.bind_some]
+  rw [hrow, hfc]
+  constructor
+  · rintro ⟨v, hv, hrel⟩
+    unfold relabelOf at hrel
+    by_cases hlt : (pos.map (fun (i : Nat) => (i : Int))).idxOf v < (pos.map (fun (i : Nat) => (i : Int))).length
+    · rw [if_pos hlt] at hrel
+      have hj : (pos.map (fun (i : Nat) => (i : Int))).idxOf v < pos.length := by simpa using hlt
+      refine ⟨_, hj, ?_, (Option.some.inj hrel).symm⟩
+      have := List.getElem_idxOf hlt
+      simp only [List.getElem_map] at this
+      rw [this]; exact hv
+    · rw [if_neg hlt] at hrel; cases hrel
+  · rintro ⟨j, hj, hmem, rfl⟩
+    refine ⟨_, hmem, ?_⟩
+    unfold relabelOf
+    have hndm : (pos.map (fun (i : Nat) => (i : Int))).Nodup :=
+      List.Pairwise.map _ (fun a b (hab : a ≠ b) => by simp only [ne_eq]; omega) hnd
+    have hjl : j < (pos.map (fun (i : Nat) => (i : Int))).length := by simpa using hj
+    have hidx := List.Nodup.idxOf_getElem hndm j hjl
+    simp only [List.getElem_map] at hidx
+    rw [hidx, if_pos hjl]
+
+example : normaliseCellIds false (takeRows [2, 0]
+      [[some 0, some 1, some 2], [some 1, some 0, some 2], [some 2, some 0, some 1]]) =
+    [[some 0, some 1, none], [some 1, some 0, none]] := by decide
+
+/-! ### The reader: which variable feeds which construct, in which orientation -/
+
+/-- **The cell dimension is found per connectivity variable.**  With a `<location>_dimension`
+attribute naming a dimension of the variable, the computed position is the position of that
+dimension among the dimensions of THIS variable (any rank, any order); without the attribute it is
+0, the UGRID default. -/
+theorem C15_cell_dimension_per_variable (m : Mesh) (loc : Loc) (v : ConnVar) :
+    (dimAttr m loc = none → cellDimension m loc v = some 0) ∧
+    (∀ d, dimAttr m loc = some d → d ∈ v.dims →
+      ∃ cd, cellDimension m loc v = some cd ∧ v.dims[cd]? = some d ∧ ∀ j < cd, v.dims[j]? ≠ some d) := by
+  constructor
+  · intro h; simp [cellDimension, h]
+  · intro d h hd
+    have hlt : v.dims.idxOf d < v.dims.length := List.idxOf_lt_length_iff.mpr hd
+    refine ⟨v.dims.idxOf d, by simp [cellDimension, h, hlt], ?_, ?_⟩
+    · rw [List.getElem?_eq_getElem hlt, List.getElem_idxOf hlt]
+    · intro j hj hjd
+      have hjl : j < v.dims.length := by omega
+      rw [List.getElem?_eq_getElem hjl] at hjd
+      have := Cfdm.UgridRead.idxOf_le_of_getElem? v.dims d j (by rw [List.getElem?_eq_getElem hjl]; exact hjd)
+      omega
+
+/-- a mesh topology variable with a `face_dimension` attribute -/
+def exAttrMesh : Mesh where
+  nodeDim := "n"
+  nNodes := 3
+  faceDim := some "nface"
+  edgeDim := none
+  faceNode := none
+  edgeNode := none
+  faceFace := none
+  coords := []
+
+example : cellDimension exAttrMesh .face ⟨["ffW", "nface"], 0, []⟩ = some 1 ∧
+    cellDimension exAttrMesh .face ⟨["nface", "fW"], 0, []⟩ = some 0 ∧
+    cellDimension exAttrMesh .edge ⟨["Two", "nedge"], 0, []⟩ = some 0 := by decide
+
+/-- **Every construct is oriented (cell, node) and zero-based, whatever the storage of each
+variable separately.**  For every well-formed logical mesh and every valid combination of storage
+choices — `face_node_connectivity`, `edge_node_connectivity` and `face_face_connectivity` each
+stored (cell, other) or (other, cell) independently of the others, each with its own `start_index`
+0 or 1, the `<location>_dimension` attributes written whenever UGRID requires them or also when it
+does not — the constructs that the reader builds for each location are those that the property
+prescribes from the logical mesh: point cells from the edges if there are edges else from the
+faces, edge/face cells = the logical rows, cell connectivity = face followed by the faces it
+touches, bounds = node coordinates gathered through the logical rows. -/
+theorem C15_read_storage_independent (lm : LMesh) (enc : MeshEnc) (hwf : lm.WF) (hv : enc.Valid)
+    (loc : Loc) : readLocation (encode lm enc) loc = specConstructs lm loc := by
+  obtain ⟨hfsi, hesi, hffsi, hfcd, hecd, hffcd, hfattr, heattr⟩ := hv
+  -- the three oriented arrays
+  have hF : ∀ f, lm.faces = some f →
+      oriented (encode lm enc) .face (storeVar "nface" "fW" enc.fn f) = some (mapVals (· + enc.fn.si) f) := by
+    intro f hf
+    apply oriented_storeVar _ _ _ _ _ _ (by decide) hfcd _ _ (hwf.faces f hf)
+    · simp only [dimAttr, encode]; cases enc.faceDimAttr <;> simp
+    · intro h; simp [dimAttr, encode, hfattr (Or.inl h)]
+  have hFF : ∀ x, lm.ff = some x →
+      oriented (encode lm enc) .face (storeVar "nface" "ffW" enc.ff x) = some (mapVals (· + enc.ff.si) x) := by
+    intro x hx
+    apply oriented_storeVar _ _ _ _ _ _ (by decide) hffcd _ _ (hwf.ff x hx)
+    · simp only [dimAttr, encode]; cases enc.faceDimAttr <;> simp
+    · intro h; simp [dimAttr, encode, hfattr (Or.inr h)]
+  have hE : ∀ e, lm.edges = some e →
+      oriented (encode lm enc) .edge (storeVar "nedge" "Two" enc.en e) = some (mapVals (· + enc.en.si) e) := by
+    intro e he
+    apply oriented_storeVar _ _ _ _ _ _ (by decide) hecd _ _ (hwf.edges e he)
+    · simp only [dimAttr, encode]; cases enc.edgeDimAttr <;> simp
+    · intro h; simp [dimAttr, encode, heattr h]
+  cases loc with
+  | node =>
+    simp only [readLocation, specConstructs, domainTopology, cellConnectivities, cellBounds,
+      LMesh.pointCells]
+    cases he : lm.edges with
+    | some e =>
+      have h1 : (encode lm enc).edgeNode = some (storeVar "nedge" "Two" enc.en e) := by simp [encode, he]
+      have hn : (encode lm enc).nNodes = lm.nNodes := rfl
+      simp only [h1, hE e he, Option.map_some, hn]
+      have : (storeVar "nedge" "Two" enc.en e).si = enc.en.si := rfl
+      rw [this, pointTopology_add .edges enc.en.si lm.nNodes e hesi]
+    | none =>
+      have h1 : (encode lm enc).edgeNode = none := by simp [encode, he]
+      simp only [h1]
+      cases hf : lm.faces with
+      | some f =>
+        have h2 : (encode lm enc).faceNode = some (storeVar "nface" "fW" enc.fn f) := by simp [encode, hf]
+        have hn : (encode lm enc).nNodes = lm.nNodes := rfl
+        simp only [h2, Option.bind_some, hF f hf, Option.map_some, hn]
+        have : (storeVar "nface" "fW" enc.fn f).si = enc.fn.si := rfl
+        rw [this, pointTopology_add .faces enc.fn.si lm.nNodes f hfsi]
+      | none =>
+        have h2 : (encode lm enc).faceNode = none := by simp [encode, hf]
+        simp [h2]
+  | edge =>
+    simp only [readLocation, specConstructs, domainTopology, cellConnectivities, cellBounds, nodeConn]
+    cases he : lm.edges with
+    | some e =>
+      have h1 : (encode lm enc).edgeNode = some (storeVar "nedge" "Two" enc.en e) := by simp [encode, he]
+      simp only [h1, Option.bind_some, hE e he, Option.map_some]
+      have hb := C15_bounds_gather enc.en.si (mapVals (· + enc.en.si) e) lm.coords
+      rw [specBounds_add] at hb
+      simp [storeVar, shiftCells_add, encode, hb]
+    | none =>
+      have h1 : (encode lm enc).edgeNode = none := by simp [encode, he]
+      simp [h1]
+  | face =>
+    simp only [readLocation, specConstructs, domainTopology, cellConnectivities, cellBounds, nodeConn]
+    have hcc : (encode lm enc).faceFace.bind (fun v => (oriented (encode lm enc) .face v).map (cellConnectivity v.si))
+        = lm.ff.map (specCellConnectivity 0) := by
+      cases hx : lm.ff with
+      | some x =>
+        have h1 : (encode lm enc).faceFace = some (storeVar "nface" "ffW" enc.ff x) := by simp [encode, hx]
+        simp only [h1, Option.bind_some, hFF x hx, Option.map_some]
+        have := C15_cell_connectivity enc.ff.si (mapVals (· + enc.ff.si) x) hffsi
+        rw [specCellConnectivity_add] at this
+        simp [storeVar, this]
+      | none =>
+        have h1 : (encode lm enc).faceFace = none := by simp [encode, hx]
+        simp [h1]
+    rw [hcc]
+    cases hf : lm.faces with
+    | some f =>
+      have h1 : (encode lm enc).faceNode = some (storeVar "nface" "fW" enc.fn f) := by simp [encode, hf]
+      simp only [h1, Option.bind_some, hF f hf, Option.map_some]
+      have hb := C15_bounds_gather enc.fn.si (mapVals (· + enc.fn.si) f) lm.coords
+      rw [specBounds_add] at hb
+      simp [storeVar, shiftCells_add, encode, hb]
+    | none =>
+      have h1 : (encode lm enc).faceNode = none := by simp [encode, hf]
+      simp [h1]
+
+/-- a small mixed mesh: a triangle and a quadrilateral, all five edges, face-face links -/
+def exMesh : LMesh :=
+  { nNodes := 5,
+    faces := some [[some 0, some 1, some 2, none], [some 1, some 3, some 4, some 2]],
+    edges := some [[some 0, some 1], [some 1, some 2], [some 2, some 0], [some 1, some 3], [some 3, some 4], [some 4, some 2]],
+    ff := some [[some 1], [some 0]],
+    coords := [0, 10, 20, 30, 40] }
+
+/-- faces (cell, node) one-based, face links (node, cell) zero-based, edges (node, cell) one-based -/
+def exEnc : MeshEnc :=
+  { fn := { si := 1, cd := 0 }, en := { si := 1, cd := 1 }, ff := { si := 0, cd := 1 },
+    faceDimAttr := true, edgeDimAttr := true }
+
+example : exEnc.Valid := by decide
+example : exMesh.WF :=
+  ⟨fun f h => by cases h; exact ⟨4, by decide, by decide, by decide⟩,
+   fun e h => by cases h; exact ⟨2, by decide, by decide, by decide⟩,
+   fun x h => by cases h; exact ⟨1, by decide, by decide, by decide⟩⟩
+example : (readLocation (encode exMesh exEnc) .face).cconn = some [[some 0, some 1], [some 1, some 0]] := by decide
+example : (readLocation (encode exMesh exEnc) .face).bounds =
+    some [[some 0, some 10, some 20, none], [some 10, some 30, some 40, some 20]] := by decide
+
+/-- **A cell dimension cached per (mesh, location) would be wrong**: with `face_node_connectivity`
+stored (face, node) and `face_face_connectivity` stored (link, face), reusing the position found for
+the first variable reads the second one untransposed. -/
+theorem C15_cell_dimension_cache_counterexample :
+    cellConnectivitiesCached (encode exMesh exEnc) .face ≠ (specConstructs exMesh .face).cconn ∧
+    cellConnectivities (encode exMesh exEnc) .face = (specConstructs exMesh .face).cconn := by
+  decide
+
+/-- The netCDF dimension that carries the cells of a location (`mesh.ncdim[location]`, the axis the
+constructs are attached to) is the cell dimension of `<location>_node_connectivity`, whichever way
+that variable is stored. -/
+theorem C15_mesh_ncdim (lm : LMesh) (enc : MeshEnc) (hv : enc.Valid) :
+    meshNcdim (encode lm enc) .node = some "nnode" ∧
+    (lm.faces.isSome → meshNcdim (encode lm enc) .face = some "nface") ∧
+    (lm.edges.isSome → meshNcdim (encode lm enc) .edge = some "nedge") := by
+  obtain ⟨_, _, _, hfcd, hecd, _, hfattr, heattr⟩ := hv
+  refine ⟨rfl, ?_, ?_⟩
+  · intro h
+    obtain ⟨f, hf⟩ := Option.isSome_iff_exists.mp h
+    have h1 : (encode lm enc).faceNode = some (storeVar "nface" "fW" enc.fn f) := by simp [encode, hf]
+    have hcd := cellDimension_storeVar (encode lm enc) .face "nface" "fW" enc.fn f (by decide) hfcd
+      (by simp only [dimAttr, encode]; cases enc.faceDimAttr <;> simp)
+      (by intro h; simp [dimAttr, encode, hfattr (Or.inl h)])
+    simp only [meshNcdim, nodeConn, h1, Option.bind_some, hcd]
+    by_cases hc : enc.fn.cd = 1
+    · simp [storeVar, hc]
+    · have h0 : enc.fn.cd = 0 := by omega
+      simp [storeVar, h0]
+  · intro h
+    obtain ⟨e, he⟩ := Option.isSome_iff_exists.mp h
+    have h1 : (encode lm enc).edgeNode = some (storeVar "nedge" "Two" enc.en e) := by simp [encode, he]
+    have hcd := cellDimension_storeVar (encode lm enc) .edge "nedge" "Two" enc.en e (by decide) hecd
+      (by simp only [dimAttr, encode]; cases enc.edgeDimAttr <;> simp)
+      (by intro h; simp [dimAttr, encode, heattr h])
+    simp only [meshNcdim, nodeConn, h1, Option.bind_some, hcd]
+    by_cases hc : enc.en.cd = 1
+    · simp [storeVar, hc]
+    · have h0 : enc.en.cd = 0 := by omega
+      simp [storeVar, h0]
+
+example : meshNcdim (encode exMesh exEnc) .edge = some "nedge" := by decide
+
+/-- The code as it is pops `start_index` from the attribute dictionary of the connectivity variable
+itself: the second mesh topology variable that names the same `face_face_connectivity` variable
+reads it with start index 0 (known finding `cell-connectivity-start-index-lost-for-second-mesh`). -/
+theorem C15_old_code_counterexample_shared_connectivity :
+    cellConnectivitySharedOld 1 1 [[some 2], [some 1]] = [[some 0, some 2], [some 1, some 1]] ∧
+    cellConnectivity 1 [[some 2], [some 1]] = specCellConnectivity 1 [[some 2], [some 1]] ∧
+    cellConnectivitySharedOld 1 1 [[some 2], [some 1]] ≠ specCellConnectivity 1 [[some 2], [some 1]] := by
+  decide
+
+/-- **Several meshes in one dataset do not interfere**: what a data variable receives depends only
+on the mesh (or location index set) it names; other mesh topology variables, with other names, in
+front of or behind it, change nothing. -/
+theorem C15_other_meshes_irrelevant (d : Dataset) (name other : String) (m' : Mesh) (loc : Loc)
+    (hne : other ≠ name) :
+    readField { d with meshes := (other, m') :: d.meshes } (.mesh name loc) = readField d (.mesh name loc) ∧
+    (∀ m, d.meshes.lookup name = some m →
+      readField { d with meshes := d.meshes ++ [(other, m')] } (.mesh name loc) = readField d (.mesh name loc)) := by
+  have hb : (name == other) = false := by simpa using fun e => hne e.symm
+  constructor
+  · simp [readField, List.lookup, hb]
+  · intro m hm
+    have : (d.meshes ++ [(other, m')]).lookup name = some m := by
+      rw [List.lookup_append, hm]; rfl
+    simp [readField, this, hm]
+
+example : readField { meshes := [("A", encode exMesh exEnc)], liss := [] } (.mesh "A" .edge) =
+    some (specConstructs exMesh .edge) := by decide
+
+/-! ### Subsets of the cells: location index sets and `Field.__getitem__` -/
+
+/-- **Every construct of the cell axis is subspaced with the same positions.**  Row `k` of the
+subspaced domain topology, cell connectivity and bounds is row `pos[k]` of the original one — the
+same `pos[k]` for all three — and each has one row per selected cell. -/
+theorem C15_subspace_rows (c : Constructs) (pos : List Nat) (n : Nat)
+    (hn : (∀ t, c.topology = some t → t.length = n) ∧ (∀ t, c.cconn = some t → t.length = n) ∧
+      (∀ t, c.bounds = some t → t.length = n))
+    (hpos : ∀ i ∈ pos, i < n) :
+    (∀ t, c.topology = some t → ∃ t' : Mat, (c.take pos).topology = some t' ∧ t'.length = pos.length ∧
+      ∀ (k i : Nat), pos[k]? = some i → t'[k]? = t[i]?) ∧
+    (∀ t, c.cconn = some t → ∃ t' : Mat, (c.take pos).cconn = some t' ∧ t'.length = pos.length ∧
+      ∀ (k i : Nat), pos[k]? = some i → t'[k]? = t[i]?) ∧
+    (∀ t, c.bounds = some t → ∃ t' : List (List (Option Int)), (c.take pos).bounds = some t' ∧ t'.length = pos.length ∧
+      ∀ (k i : Nat), pos[k]? = some i → t'[k]? = t[i]?) := by
+  have key : ∀ {α : Type} (t : List α), t.length = n →
+      (takeRows pos t).length = pos.length ∧ ∀ (k i : Nat), pos[k]? = some i → (takeRows pos t)[k]? = t[i]? := by
+    intro α t ht
+    have hp : ∀ i ∈ pos, i < t.length := by rw [ht]; exact hpos
+    refine ⟨takeRows_length pos t hp, ?_⟩
+    intro k i hk
+    rw [takeRows_getElem? pos t hp k, hk]; rfl
+  refine ⟨?_, ?_, ?_⟩
+  · intro t ht
+    exact ⟨takeRows pos t, by simp [Constructs.take, ht], key t (hn.1 t ht)⟩
+  · intro t ht
+    exact ⟨takeRows pos t, by simp [Constructs.take, ht], key t (hn.2.1 t ht)⟩
+  · intro t ht
+    exact ⟨takeRows pos t, by simp [Constructs.take, ht], key t (hn.2.2 t ht)⟩
+
+example : ((readLocation (encode exMesh exEnc) .face).take [1]).topology =
+    some [[some 1, some 3, some 4, some 2]] := by decide
+
+/-- A subspace of a subspace (a `Field.__getitem__` of a field on a location index set, or two
+successive subspaces) is the subspace by the composed positions. -/
+theorem C15_subspace_compose (c : Constructs) (p q : List Nat) (n : Nat)
+    (hn : (∀ t, c.topology = some t → t.length = n) ∧ (∀ t, c.cconn = some t → t.length = n) ∧
+      (∀ t, c.bounds = some t → t.length = n))
+    (hq : ∀ i ∈ q, i < n) :
+    (c.take q).take p = c.take (takeRows p q) := by
+  obtain ⟨h1, h2, h3⟩ := hn
+  have key : ∀ {α : Type} (o : Option (List α)), (∀ t, o = some t → t.length = n) →
+      (o.map (takeRows q)).map (takeRows p) = o.map (takeRows (takeRows p q)) := by
+    intro α o ho
+    cases o with
+    | none => rfl
+    | some t =>
+      simp only [Option.map_some]
+      rw [takeRows_takeRows p q t (by rw [ho t rfl]; exact hq)]
+  simp only [Constructs.take]
+  rw [key c.topology h1, key c.cconn h2, key c.bounds h3]
+
+example : takeRows [1, 0] (takeRows [2, 0, 1] [10, 20, 30]) = takeRows (takeRows [1, 0] [2, 0, 1]) [10, 20, 30] := by
+  decide
+
+/-- `Field.__getitem__` as coded (`takeIx`): the domain topology and the cell connectivity are
+always the selected rows; so are the bounds **unless the index reverses the axis** (slice with a
+negative step, or a list whose last position lies before its first) — then
+`PropertiesDataBounds.__getitem__` also reverses the trailing dimension of the bounds (the CF 7.1
+rule for 1-d coordinates).  Full statement `c.takeIx step pos = c.take pos` fails for reversing
+indices (`C15_subspace_bounds_reversed_counterexample`, known finding
+`ugrid-bounds-reversed-by-descending-subspace`). -/
+theorem C15_subspace_bounds_partial (c : Constructs) (step : Option Int) (pos : List Nat) :
+    (c.takeIx step pos).topology = (c.take pos).topology ∧
+    (c.takeIx step pos).cconn = (c.take pos).cconn ∧
+    ((∀ b, c.bounds = some b → boundsReversed step pos (arrSize b) = false) →
+      c.takeIx step pos = c.take pos) := by
+  refine ⟨rfl, rfl, ?_⟩
+  intro h
+  simp only [Constructs.takeIx, Constructs.take]
+  cases hb : c.bounds with
+  | none => rfl
+  | some b => simp [h b hb]
+
+example : boundsReversed (some 2) [0, 2] 8 = false ∧ boundsReversed none [0, 1] 8 = false ∧
+    boundsReversed none [1, 0] 8 = true ∧ boundsReversed (some (-1)) [1, 0] 8 = true := by decide
+
+/-- After `f[::-1]` the bounds of a face are no longer the node coordinates gathered through the
+(subspaced) domain topology: each row is reversed and its padding comes first. -/
+theorem C15_subspace_bounds_reversed_counterexample :
+    ((readLocation (encode exMesh exEnc) .face).takeIx (some (-1)) [1, 0]).bounds =
+      some [[some 20, some 40, some 30, some 10], [none, some 20, some 10, some 0]] ∧
+    ((readLocation (encode exMesh exEnc) .face).takeIx (some (-1)) [1, 0]).topology =
+      some [[some 1, some 3, some 4, some 2], [some 0, some 1, some 2, none]] ∧
+    specBounds 0 [[some 1, some 3, some 4, some 2], [some 0, some 1, some 2, none]] exMesh.coords =
+      [[some 10, some 30, some 40, some 20], [some 0, some 10, some 20, none]] := by
+  decide
+
+/-- **A location index set composed with the topology** (the code after
+`fixes/C15-location-index-set.patch`): the data variable gets one row per index, and row `k` of its
+domain topology and of its cell connectivity is row `idx[k] - start_index` of the construct of the
+whole mesh at that location. -/
+theorem C15_location_index_set (m : Mesh) (l : Lis) (n : Nat)
+    (hn : (∀ t, (readLocation m l.loc).topology = some t → t.length = n) ∧
+      (∀ t, (readLocation m l.loc).cconn = some t → t.length = n) ∧
+      (∀ t, (readLocation m l.loc).bounds = some t → t.length = n))
+    (hidx : ∀ i ∈ l.idx, l.si ≤ i ∧ i < l.si + n) :
+    (∀ t, (readLocation m l.loc).topology = some t → ∃ t' : Mat, (readLis m l).topology = some t' ∧
+      t'.length = l.idx.length ∧ ∀ (k i : Nat), l.idx[k]? = some i → t'[k]? = t[i - l.si]?) ∧
+    (∀ t, (readLocation m l.loc).cconn = some t → ∃ t' : Mat, (readLis m l).cconn = some t' ∧
+      t'.length = l.idx.length ∧ ∀ (k i : Nat), l.idx[k]? = some i → t'[k]? = t[i - l.si]?) := by
+  have hpos : ∀ i ∈ l.positions, i < n := by
+    intro i hi
+    simp only [Lis.positions, List.mem_map] at hi
+    obtain ⟨j, hj, rfl⟩ := hi
+    have := hidx j hj; omega
+  have hrows := C15_subspace_rows (readLocation m l.loc) l.positions n hn hpos
+  constructor
+  · intro t ht
+    obtain ⟨t', h1, h2, h3⟩ := hrows.1 t ht
+    refine ⟨t', h1, by simpa [Lis.positions] using h2, ?_⟩
+    intro k i hk
+    apply h3
+    simp [Lis.positions, hk]
+  · intro t ht
+    obtain ⟨t', h1, h2, h3⟩ := hrows.2.1 t ht
+    refine ⟨t', h1, by simpa [Lis.positions] using h2, ?_⟩
+    intro k i hk
+    apply h3
+    simp [Lis.positions, hk]
+
+example : (readLis (encode exMesh exEnc) { loc := .face, si := 1, idx := [2] }).topology =
+    some [[some 1, some 3, some 4, some 2]] := by decide
+
+/-- The code as it is gives a data variable on a location index set no construct at all (the mesh
+is ignored with a warning) — known finding `location-index-set-ignored`. -/
+theorem C15_old_code_counterexample_location_index_set :
+    (readLisOld (encode exMesh exEnc) { loc := .face, si := 1, idx := [2] }).topology = none ∧
+    (readLis (encode exMesh exEnc) { loc := .face, si := 1, idx := [2] }).topology =
+      ((specConstructs exMesh .face).take [1]).topology := by
+  decide
 
 end Cfdm.Props.C15
